@@ -205,6 +205,19 @@ func runC06(c *runCfg) error {
 			}
 		}
 	}
+	// a statement function that panics under Execute (an inadmissible result-format code makes the encoder panic):
+	// exactly one ErrorResponse, no ReadyForQuery before the Sync, the rest of the batch skipped, one ReadyForQuery
+	for _, code := range []int{2, 7, 65535} {
+		for _, tail := range [][][]byte{
+			{mParse(nil, []byte("ok"), 0), mBind(nil, nil, nil, nil, nil), mExecute(nil, 0), mSync(), mQuery([]byte("ok"))},
+			{mSync(), mExecute(nil, 0), mSync()},
+			{mFlush(), mDescribe('P', nil), mSync(), mBind(nil, nil, nil, nil, []int{1}), mExecute(nil, 0), mSync()},
+		} {
+			msgs := append([][]byte{mParse(nil, []byte("ok"), 0), mBind(nil, nil, nil, nil, []int{code}), mExecute(nil, 0)}, tail...)
+			emitSession(c, lockCase(id, "panic_in_execute", cfg, stdStartup, msgs))
+			id++
+		}
+	}
 	// Execute with a row-count field: the portal runs to completion (no PortalSuspended exists in this server),
 	// CommandComplete follows all rows
 	for _, mr := range []uint32{1, 2, 3, 0x7fffffff, 0x80000000, 0xffffffff} {
